@@ -21,6 +21,7 @@ stream, `scheduled p` = those whose epoch is divisible by `p` (Int divisibility 
 import Mathlib.Data.List.Forall2
 import QV.Model.Callbacks
 import QV.Lemmas.Callbacks
+import QV.Lemmas.Stats
 import QV.Props.C12
 
 namespace QV.Props
@@ -1065,6 +1066,171 @@ theorem C17_independent (evs : List (Ev W)) :
       rw [hm1]
       exact (ih mid res).mpr hm2
 
+/-! ### the evaluator's names, CSV columns and attribute names are the observables' names -/
+
+section columns
+
+theorem dictSet_eq {K B : Type} [BEq K] [LawfulBEq K] (d : Dict K B) (k : K) (v : B) :
+    Dict.set d k v = Stats.dictSet d k v := by
+  unfold Dict.set Stats.dictSet
+  have hc : d.keys.contains k = d.any (fun e => e.1 == k) := by
+    rw [Bool.eq_iff_iff]
+    simp only [Dict.keys, List.contains_iff_mem, List.mem_map, List.any_eq_true, beq_iff_eq]
+  rw [hc]
+  split
+  · refine List.map_congr_left (fun e _ => ?_)
+    by_cases h : e.1 == k
+    · have : e.1 = k := by simpa using h
+      simp [this]
+    · simp [h]
+  · rfl
+
+theorem ofPairs_eq_systemInit {K B : Type} [BEq K] [LawfulBEq K] (l : List (K × B)) :
+    Dict.ofPairs l = Stats.systemInit l := by
+  unfold Dict.ofPairs Stats.systemInit
+  congr 1
+  funext d kv
+  exact dictSet_eq d kv.1 kv.2
+
+/-- **C17 columns** — `names`, and with them the CSV header and the attribute names `evaluator.<name>`, of an
+`ObservableEvaluator` are the NAMES of the observables it was given, each once, in order of first occurrence (the key
+order of the `System` dictionary, `C13_system_keys_of_names`); the header reads `epoch`, then for every such name
+`<name>_mean`, `<name>_variance`, `<name>_std_error` in this order. (For composites the names are `exprText`,
+`C16_name_of_build`.) -/
+theorem C17_columns_of_names (c : ObservableEvaluator W V) :
+    c.names = Stats.firstOcc c.obsNames ∧
+    c.csvFields.map Field.text = "epoch" :: (Stats.firstOcc c.obsNames).flatMap
+      (fun o => [o ++ "_" ++ "mean", o ++ "_" ++ "variance", o ++ "_" ++ "std_error"]) := by
+  have hn : c.names = Stats.firstOcc c.obsNames := by
+    unfold ObservableEvaluator.names
+    rw [ofPairs_eq_systemInit]
+    have := Stats.systemInit_keys (c.obsNames.map (fun n => (n, ())))
+    simp only [List.map_map] at this
+    simpa [Dict.keys, Function.comp_def] using this
+  refine ⟨hn, ?_⟩
+  unfold ObservableEvaluator.csvFields
+  rw [hn]
+  simp only [List.map_cons, Field.text, List.map_flatMap, csvStats, List.map_nil]
+
+end columns
+
+/-! ### `verbose`: the printing branches and the order of effects -/
+
+section verbose
+
+/-- **C17 verbose (metric evaluator)** — whenever every value computed at this evaluation can be formatted with
+`{v:.6f}`, the record appended, `last`, the CSV row and the exception (if any) are the same for EVERY object passed as
+`verbose` (the singleton `True`, `False`, `1`, `numpy.True_`, …), namely those of the plain state machine
+`onEpochEnd` all the C17 theorems speak about. -/
+theorem C17_verbose_irrelevant_when_formattable (c : MetricEvaluator W V) (fmt : V → Except PyErr String)
+    (s : EvalState V V) (e : Int) (w : W) (hf : ∀ nv ∈ c.evalAll w, ∃ t, fmt nv.2 = .ok t) (verbose : PyFlag) :
+    (c.onEpochEndV verbose fmt s e w).toExcept = c.onEpochEnd s e w ∧
+    (c.onEpochEndV verbose fmt s e w).state = (c.onEpochEndV (.pyBool false) fmt s e w).state ∧
+    (c.onEpochEndV verbose fmt s e w).err = (c.onEpochEndV (.pyBool false) fmt s e w).err := by
+  obtain ⟨line, hl⟩ := fmtJoin_ok fmt " = " (c.evalAll w) hf
+  unfold MetricEvaluator.onEpochEndV MetricEvaluator.onEpochEnd
+  cases hg : gate e c.period with
+  | error err => simp [Effects.toExcept]
+  | ok b =>
+    cases b with
+    | false => simp [Effects.toExcept]
+    | true =>
+      have hF : (PyFlag.pyBool false).isTrueSingleton = false := rfl
+      simp only [hl, hF]
+      cases hv : verbose.isTrueSingleton <;> cases hlog : c.log <;> simp [Effects.toExcept] <;>
+        cases hr : c.logRow e (c.evalAll w) <;> simp
+
+/-- the same for whole runs: over any event stream on which every computed value is formattable, the verbose
+callback leaves the state / raises the exception of the plain `run` (so every `C17_records_*` / `C17_schedule_*`
+theorem applies to it), whatever `verbose` is. -/
+theorem C17_verbose_run_irrelevant_when_formattable (c : MetricEvaluator W V) (fmt : V → Except PyErr String)
+    (hf : ∀ w, ∀ nv ∈ c.evalAll w, ∃ t, fmt nv.2 = .ok t) (verbose : PyFlag) (evs : List (Ev W)) (s : EvalState V V) :
+    (c.runV verbose fmt s evs).toExcept = c.run s evs := by
+  induction evs generalizing s with
+  | nil => rfl
+  | cons ev rest ih =>
+    cases ev with
+    | epochEnd e w =>
+      have h1 := (C17_verbose_irrelevant_when_formattable c fmt s e w (hf w) verbose).1
+      simp only [MetricEvaluator.runV, MetricEvaluator.run, runWith, MetricEvaluator.step]
+      cases herr : (c.onEpochEndV verbose fmt s e w).err with
+      | some err =>
+        simp only [Effects.toExcept, herr] at h1 ⊢
+        rw [← h1]
+      | none =>
+        simp only [Effects.toExcept, herr] at h1
+        rw [← h1]
+        exact ih _
+    | trainStart w => simpa [MetricEvaluator.runV, MetricEvaluator.run, runWith, MetricEvaluator.step] using ih s
+    | trainEnd w => simpa [MetricEvaluator.runV, MetricEvaluator.run, runWith, MetricEvaluator.step] using ih s
+    | epochStart e w => simpa [MetricEvaluator.runV, MetricEvaluator.run, runWith, MetricEvaluator.step] using ih s
+    | batchStart e b w => simpa [MetricEvaluator.runV, MetricEvaluator.run, runWith, MetricEvaluator.step] using ih s
+    | batchEnd e b w => simpa [MetricEvaluator.runV, MetricEvaluator.run, runWith, MetricEvaluator.step] using ih s
+
+/-- `verbose is True` is an identity test: any object that is not the singleton `True` prints nothing and never
+formats a value (so an unformattable value is harmless then). -/
+theorem C17_verbose_identity_test (c : MetricEvaluator W V) (fmt : V → Except PyErr String)
+    (s : EvalState V V) (e : Int) (w : W) (verbose : PyFlag) (hv : verbose.isTrueSingleton = false) :
+    (c.onEpochEndV verbose fmt s e w).out = [] ∧ (c.onEpochEndV verbose fmt s e w).toExcept = c.onEpochEnd s e w := by
+  unfold MetricEvaluator.onEpochEndV MetricEvaluator.onEpochEnd
+  cases hg : gate e c.period with
+  | error err => simp [Effects.toExcept]
+  | ok b =>
+    cases b with
+    | false => simp [Effects.toExcept]
+    | true =>
+      simp only [hv]
+      cases hlog : c.log <;> simp [Effects.toExcept] <;> cases hr : c.logRow e (c.evalAll w) <;> simp
+
+/-- **what has happened when formatting raises** (`verbose=True`, the evaluation is due, some value is not
+formattable): the exception propagates; the record IS appended (`len` grew by one, `last` is the new dict), the epoch
+header is on stdout, but the CSV row is NOT written — history and log file are out of step from then on. -/
+theorem C17_verbose_unformattable_partial (c : MetricEvaluator W V) (fmt : V → Except PyErr String)
+    (s : EvalState V V) (e : Int) (w : W) (hg : gate e c.period = .ok true)
+    (hbad : ∃ nv ∈ c.evalAll w, ∃ err, fmt nv.2 = .error err) :
+    ∃ err, c.onEpochEndV (.pyBool true) fmt s e w =
+      ⟨{ s with last := c.evalAll w, past := s.past ++ [(e, c.evalAll w)] }, ["Epoch: " ++ toString e ++ "\t"], some err⟩ ∧
+      (c.onEpochEndV (.pyBool true) fmt s e w).state.len = s.len + 1 ∧
+      (c.onEpochEndV (.pyBool true) fmt s e w).state.log = s.log := by
+  obtain ⟨err, herr⟩ := fmtJoin_error fmt " = " (c.evalAll w) hbad
+  refine ⟨err, ?_⟩
+  have : c.onEpochEndV (.pyBool true) fmt s e w =
+      ⟨{ s with last := c.evalAll w, past := s.past ++ [(e, c.evalAll w)] }, ["Epoch: " ++ toString e ++ "\t"], some err⟩ := by
+    simp [MetricEvaluator.onEpochEndV, hg, PyFlag.isTrueSingleton, herr]
+  refine ⟨this, ?_, ?_⟩ <;> rw [this] <;> simp [EvalState.len]
+
+/-- **C17 verbose (observable evaluator)** — as for the metric evaluator: with formattable statistics the record, the
+CSV row and the outcome do not depend on `verbose` and are those of `onEpochEnd`. -/
+theorem C17_verbose_irrelevant_when_formattable_observable (c : ObservableEvaluator W V)
+    (fmt : V → Except PyErr String) (s : EvalState (Dict String V) V) (e : Int) (w : W)
+    (hf : ∀ od ∈ c.statistics w, ∀ kv ∈ od.2, ∃ t, fmt kv.2 = .ok t) (verbose : PyFlag) :
+    (c.onEpochEndV verbose fmt s e w).toExcept = c.onEpochEnd s e w ∧
+    (c.onEpochEndV verbose fmt s e w).state = (c.onEpochEndV (.pyBool false) fmt s e w).state ∧
+    (c.onEpochEndV verbose fmt s e w).err = (c.onEpochEndV (.pyBool false) fmt s e w).err := by
+  obtain ⟨body, hl⟩ := verboseBody_ok fmt (c.statistics w) hf
+  unfold ObservableEvaluator.onEpochEndV ObservableEvaluator.onEpochEnd
+  cases hg : gate e c.period with
+  | error err => simp [Effects.toExcept]
+  | ok b =>
+    cases b with
+    | false => simp [Effects.toExcept]
+    | true =>
+      have hF : (PyFlag.pyBool false).isTrueSingleton = false := rfl
+      simp only [hl, hF]
+      cases hv : verbose.isTrueSingleton <;> cases hlog : c.log <;> simp [Effects.toExcept] <;>
+        cases hr : dictWriterRow c.csvFields (ObservableEvaluator.rowDict e (c.statistics w)) true <;> simp
+
+/-- observable evaluator, formatting raises: record appended, header printed, no CSV row. -/
+theorem C17_verbose_unformattable_partial_observable (c : ObservableEvaluator W V) (fmt : V → Except PyErr String)
+    (s : EvalState (Dict String V) V) (e : Int) (w : W) (hg : gate e c.period = .ok true) (err : PyErr)
+    (hbad : ObservableEvaluator.verboseBody fmt (c.statistics w) = .error err) :
+    c.onEpochEndV (.pyBool true) fmt s e w =
+      ⟨{ s with last := c.statistics w, past := s.past ++ [(e, c.statistics w)] }, ["Epoch: " ++ toString e ++ "\n"],
+        some err⟩ := by
+  simp [ObservableEvaluator.onEpochEndV, hg, PyFlag.isTrueSingleton, hbad]
+
+end verbose
+
 /-! ### non-vacuity: a concrete stream with a stopped run followed by a second run -/
 
 /-- run 1: epochs 1..4 (other events interleaved), cut short after epoch 4; run 2: epochs 3..4 again -/
@@ -1076,6 +1242,17 @@ def exStream : List (Ev Nat) :=
 def exMetric : MetricEvaluator Nat Nat := ⟨2, [("a", fun w => 10 * w), ("b", fun w => w + 1)], true⟩
 
 example : scheduled 2 exStream = [(2, 2), (4, 4), (4, 6)] := by decide
+
+/-- verbose: a metric returning a formattable value (`w ≠ 3`) or a string (`w = 3`, `fmt` raises `ValueError`): the
+verbose run over `exStream` (period 2: evaluations at worlds 2, 4, 6) completes and prints; with the unformattable value
+at world 2 the run stops there with one record, the header on stdout and only the CSV header in the log. -/
+example : let fmt : Nat → Except PyErr String := fun v => if v = 20 then .error .ValueError else .ok (toString v)
+    let r := exMetric.runV (.pyBool true) fmt exMetric.init exStream
+    (r.err, r.state.epochs, r.state.log.length, r.out) = (some .ValueError, [2], 1, ["Epoch: 2\t"]) := by decide
+example : let fmt : Nat → Except PyErr String := fun v => .ok (toString v)
+    let r := exMetric.runV (.pyBool true) fmt exMetric.init exStream
+    (r.err, r.state.epochs, r.state.log.length, r.out.take 2) = (none, [2, 4, 4], 4, ["Epoch: 2\t", "a = 20\tb = 3\n"]) := by
+  decide
 example : exMetric.names.Nodup ∧ (exMetric.log = true → "epoch" ∉ exMetric.names) := by decide
 
 /-- the model, executed on the example, gives exactly the records the theorem predicts -/
